@@ -616,7 +616,7 @@ def replay(ctx, rec):
             e.pop("returned")
         rej = ctx.validate_traces("Trace_Watcher", "Trace_Watcher.cfg", [tr])
         if rej:
-            print(f"VIOLATION property=C08 replay=(given) why={rej[0][2]} step={rej[0][1]}")
+            print(f"VIOLATION property=C08 replay={rec.get('path', '(given)')} why={rej[0][2]} step={rej[0][1]}")
             return 1
         print("replay: property holds on this watcher history")
         return 0
@@ -624,7 +624,7 @@ def replay(ctx, rec):
                       [(s[0], s[1], s[2] if s[1] == "burst" else None) for s in r["steps"]]))
     rej = ctx.validate_traces("Trace_Transmission", "Trace_Transmission.cfg", [tr])
     if rej:
-        print(f"VIOLATION property=C08 replay=(given) why={rej[0][2]} step={rej[0][1]}")
+        print(f"VIOLATION property=C08 replay={rec.get('path', '(given)')} why={rej[0][2]} step={rej[0][1]}")
         return 1
     print("replay: property holds on this history")
     return 0
